@@ -213,7 +213,7 @@ func ruleTypeSwitchTotal(c *Ctx, rule string) {
 			ob.Bad("after the switch: " + ts.after + " — an unmatched value is not turned into an error")
 		}
 	}
-	r.Floor(rule, "type switches in package bytecode", n, 8)
+	r.Floor(rule, "type switches in package bytecode", n, 5)
 }
 
 func setsPTERROR(info *types.Info, fd *ast.FuncDecl, sw ast.Stmt) bool {
